@@ -416,9 +416,11 @@ func c56Gen(r *vkit.Run, i int) *c56Case {
 		want := c56PostLimit - g.Intn(3)
 		rem := want - len(b0)
 		for rem > 0 {
-			n := 269
-			if rem < n+15 {
+			n := 269 // 14 bytes of RR overhead + one <=255-byte character-string
+			if rem < n {
 				n = rem
+			} else if rem < n+15 {
+				n = rem - 15 // leave room for one more minimal RR
 			}
 			if n < 15 {
 				break
@@ -427,7 +429,10 @@ func c56Gen(r *vkit.Run, i int) *c56Case {
 			rem -= n
 		}
 		m.Compress = false
-		wire, _ = m.Pack()
+		var perr error
+		if wire, perr = m.Pack(); perr != nil {
+			panic("generator pack (post-at-limit): " + perr.Error())
+		}
 	default:
 		post = false
 		c.Shape = "get-query-shape"
@@ -456,6 +461,10 @@ func c56Gen(r *vkit.Run, i int) *c56Case {
 		c.BodyHex = hex.EncodeToString(wire)
 		c.Chunked = g.Chance(1, 5)
 		c.Target = "/dns-query"
+		if len(wire) > c56PostLimit && !c.wantErr {
+			// whatever the generator intended: a body over the limit is oversized
+			c.wantErr, c.why = true, fmt.Sprintf("POST body of %d bytes exceeds the %d-byte limit", len(wire), c56PostLimit)
+		}
 		refDecode(wire)
 	} else {
 		enc := base64.RawURLEncoding.EncodeToString(wire)
@@ -895,7 +904,7 @@ func c56(r *vkit.Run) {
 	}
 	defer up.pc.Close()
 	root := filepath.Join(scratch(), "c56conf")
-	writeFile(filepath.Join(root, "mod_doh", "mod_doh.conf"), []byte(fmt.Sprintf("[Basic]\nCond = \"default_t()\"\n\n[Dns]\nAddress = \"%s\"\nTimeout = 2000\nRetryMax = 0\n\n[Log]\nOpenDebug = false\n", up.pc.LocalAddr().String())))
+	writeFile(filepath.Join(root, "mod_doh", "mod_doh.conf"), []byte(fmt.Sprintf("[Basic]\nCond = \"default_t()\"\n\n[Dns]\nAddress = \"%s\"\nTimeout = 30000\nRetryMax = 0\n\n[Log]\nOpenDebug = false\n", up.pc.LocalAddr().String())))
 	env := newModEnv()
 	m := mod_doh.NewModuleDoh()
 	if err := m.Init(env.cbs, env.whs, root); err != nil {
